@@ -82,3 +82,11 @@ Section StateInv.
       specialize (IH t s x HP). destruct (run_tree St e t (s, x)) as [s1 y1]. apply IHl; exact IH.
   Qed.
 End StateInv.
+
+Lemma bytes_eqb_true : forall a b, bytes_eqb a b = true -> a = b.
+Proof.
+  induction a as [|x a IH]; destruct b as [|y b]; simpl; intros H; try discriminate; auto.
+  apply andb_prop in H as [H1 H2]. apply N.eqb_eq in H1. subst. f_equal. auto.
+Qed.
+Lemma bytes_eqb_refl : forall a, bytes_eqb a a = true.
+Proof. induction a as [|x a IH]; simpl; [reflexivity|]. rewrite N.eqb_refl. exact IH. Qed.
